@@ -73,6 +73,15 @@ CLAIMED = {
    note=TB + "Time is real in the campaign (comparisons are 'not earlier than' with slack); the timed part of the model is the Concat partition only.",
    technique="Lean 4 proof (invariants over the event system + modular arithmetic on wrapped uint64) + trace validation and timestamp oracle on the real queue",
    ref="§5 C15, Appendix N"),
+ "C14": dict(
+   text="Lean theorems: pkt-line framing round trip for every well-formed packet list; the payload reader returns the first n payload bytes for every packetisation; every rendered answer is well-formed (content packets "
+        "non-empty and <= 65516, for both writer capacities regenerated from the source); content packets carry exactly the content; clean content = one-shot clean output for every packetisation; non-pointer smudge = "
+        "payload; delay only when offered and not local; for every schedule the announced lists concatenate to the delayed set (each exactly once), every round but the last is non-empty, the last is empty. The harness "
+        "plays Git against the real filter-process (random programs, packetisations from 1 byte to 65516, local/server/missing/failing objects, delay on/off), an independent pkt-line parser checks the grammar, contents "
+        "are compared with the bytes-only oracle and with the model per request.",
+   note=TB + "Termination of the delay rounds is relative to C06 and server fairness; goroutine timing of infiniteTransferBuffer is abstracted to 'some schedule ks'. D22 (exit 2 mid-exchange on an undownloadable object) is a known finding.",
+   technique="Lean 4 proof (framing round trip, writer bounds, schedule-independent delay rounds) + protocol-level differential correspondence against the real filter-process",
+   ref="§5 C14, Appendix I"),
 }
 PENDING_REASON = "check not built yet in this session (build in progress, see DESIGN.md §10); not claimed until its theorems and correspondence run"
 ALL = ["C%02d" % i for i in range(1, 21)]
